@@ -110,15 +110,63 @@ Theorem older_refusal_is_justified :
   Forall (Forall explicit_pos) progs ->
   justified_log (w_log (finish fuel (run (init_world shards progs) sched)))
 
-(* the history checker used on real executions is sound *).
+(* the second permitted deviation is always justified: when a compare-and-swap is answered with the
+   flagged "no swap" (the value it would find now equals the expected one), the key has been
+   modified since that call read it -- its modification counter, which every accepted insert,
+   replace and delete of the key bumps by one, is above the value the call saw at its read *).
 Proof. exact older_refusals_are_justified. Qed.
 Check older_refusal_is_justified :
   forall shards progs sched fuel,
   Forall (Forall explicit_pos) progs ->
   justified_log (w_log (finish fuel (run (init_world shards progs) sched)))
 
-(* the history checker used on real executions is sound *).
+(* the second permitted deviation is always justified: when a compare-and-swap is answered with the
+   flagged "no swap" (the value it would find now equals the expected one), the key has been
+   modified since that call read it -- its modification counter, which every accepted insert,
+   replace and delete of the key bumps by one, is above the value the call saw at its read *).
 Print Assumptions older_refusal_is_justified.
+
+Theorem cas_refusal_is_justified :
+  forall shards progs sched i,
+  let w := run (init_world shards progs) sched in
+  forall th k e n tso rest ts ex g v0 s' r cm,
+  nth_error (w_th w) i = Some th -> t_ops th = OCas k e n tso :: rest -> t_pc th = PCGuard ts ex g v0 ->
+  opstep (w_sh w) (OCas k e n tso) (PCGuard ts ex g v0) = (s', r, Some cm) -> c_dev cm = true ->
+  v0 < kver (w_sh w) k
+
+(* ... and every unit of that counter is an accepted, logged modification of the key by the thread
+   that took the step; all other steps leave every table entry and every counter alone *).
+Proof. exact cas_refusals_are_justified. Qed.
+Check cas_refusal_is_justified :
+  forall shards progs sched i,
+  let w := run (init_world shards progs) sched in
+  forall th k e n tso rest ts ex g v0 s' r cm,
+  nth_error (w_th w) i = Some th -> t_ops th = OCas k e n tso :: rest -> t_pc th = PCGuard ts ex g v0 ->
+  opstep (w_sh w) (OCas k e n tso) (PCGuard ts ex g v0) = (s', r, Some cm) -> c_dev cm = true ->
+  v0 < kver (w_sh w) k
+
+(* ... and every unit of that counter is an accepted, logged modification of the key by the thread
+   that took the step; all other steps leave every table entry and every counter alone *).
+Print Assumptions cas_refusal_is_justified.
+
+Theorem modification_counter_counts_commits :
+  forall s o p s' r c, opstep s o p = (s', r, c) ->
+  (tbl s' = tbl s /\ ver s' = ver s) \/
+  ((forall k, k <> key_of o -> aget k (tbl s') = aget k (tbl s) /\ kver s' k = kver s k) /\
+   kver s' (key_of o) = kver s (key_of o) + 1 /\
+   exists cm, c = Some cm /\ c_dev cm = false /\ c_op cm = o)
+
+(* the history checker used on real executions is sound *).
+Proof. exact opstep_tblver. Qed.
+Check modification_counter_counts_commits :
+  forall s o p s' r c, opstep s o p = (s', r, c) ->
+  (tbl s' = tbl s /\ ver s' = ver s) \/
+  ((forall k, k <> key_of o -> aget k (tbl s') = aget k (tbl s) /\ kver s' k = kver s k) /\
+   kver s' (key_of o) = kver s (key_of o) + 1 /\
+   exists cm, c = Some cm /\ c_dev cm = false /\ c_op cm = o)
+
+(* the history checker used on real executions is sound *).
+Print Assumptions modification_counter_counts_commits.
 
 Theorem history_checker_sound :
   forall h, lin_check h = true ->
